@@ -1,5 +1,215 @@
-(* Proofs/History.v *)
+(* Proofs/History.v: property C03 -- no hidden state after any history of public operations. *)
 From BVA Require Import Base.Prelude Base.Result Base.Words Base.Limbs.
-From BVA Require Import Model.Core Model.Ops Model.Arith Model.Conv Model.Auto Model.Run Spec.Spec Spec.Prop.
+From BVA Require Import Model.Core Model.Ops Model.Arith Model.Conv Model.Auto Model.Run Spec.Spec Spec.Prop Spec.CaseOk.
 From BVA Require Import Proofs.Common Proofs.Rechunk Proofs.Lift.
 From Coq Require Import ZifyBool ZifyN ZifyNat.
+From BVA Require Import Proofs.Pairings Proofs.ConvP Proofs.XEdit Proofs.XObs Proofs.Append Proofs.Div Proofs.MasterB.
+From BVA Require Proofs.MasterA.
+From BVA Require Import Proofs.Master.
+
+(* ------------------------------------------------------------------ reachable values *)
+
+(* Values obtainable by finite histories of public operations: the vector items of results of
+   in-scope cases whose vector operands are themselves reachable.
+
+   The premise `spec_case c <> SFree` restricts histories to steps the properties speak about.
+   It is necessary: on some in-scope cases the crate's behaviour is deliberately left
+   unconstrained (`SFree`) -- e.g. a release-profile `set` with an out-of-range index, where the
+   crate writes a bit beyond `len` without any check -- and there the model (like the crate)
+   returns a NON-canonical vector; see `reach_unrestricted_not_canon` below.  The test harness does
+   exactly the same: a history only continues from states the properties constrain.
+   (Operation 37, `prop_hash_pair`, has `spec_case = SFree` and so is not a step either; this loses
+   nothing because its result holds no vector at all, see `op37_no_vector`.) *)
+Inductive Reach : bvx -> Prop :=
+| Reach_step c items x :
+    In (c_op c) all_ops -> case_okb c = true ->
+    spec_case c <> SFree ->
+    Forall Reach (c_vals c) ->
+    run_case c = Ok items -> In (IV x) items -> Reach x.
+
+(* ------------------------------------------------------------------ the relation never says "any item" *)
+
+Definition sitem_strict (s : sitem) : bool := match s with SAny => false | _ => true end.
+Definition sres_strict (r : sres) : bool :=
+  match r with SOk l => forallb sitem_strict l | _ => true end.
+
+Ltac split_match :=
+  match goal with
+  | |- context [match ?x with _ => _ end] => destruct x
+  end.
+
+Lemma spec_case_strict c : sres_strict (spec_case c) = true.
+Proof.
+  unfold spec_case, s_parse, dbg_or_free. cbv zeta.
+  destruct (c_op c) as [|p]; [destruct (sval c 0) as [[ka a]|]; reflexivity|].
+  do 8 (try (destruct p as [p|p|]));
+    cbv beta iota;
+    repeat first [reflexivity | split_match].
+Qed.
+
+Lemma items_ok_canon l : forall items x,
+  forallb sitem_strict l = true -> items_ok l items = true -> In (IV x) items -> canonb x = true.
+Proof.
+  induction l as [|s l IH]; intros [|i items] x Hs Hok Hin; cbn [items_ok] in Hok;
+    try discriminate Hok; try (destruct Hin; fail).
+  cbn [forallb] in Hs. apply andb_true_iff in Hs. destruct Hs as [Hs1 Hs2].
+  apply andb_true_iff in Hok. destruct Hok as [Hi Hok].
+  destruct Hin as [->|Hin]; [|exact (IH items x Hs2 Hok Hin)].
+  destruct s as [k v lo hi|n|n|m|]; cbn [item_ok sitem_strict] in Hi, Hs1; try discriminate.
+  rewrite !andb_true_iff in Hi. tauto.
+Qed.
+
+(* every vector the property relation accepts in a result is canonical *)
+Lemma prop_ok_items_good c items x :
+  c_op c <> 37 -> prop_case c (Ok items) = true -> spec_case c <> SFree -> In (IV x) items -> canonb x = true.
+Proof.
+  intros H37 Hp Hfree Hin. rewrite prop_case_res in Hp by assumption.
+  pose proof (spec_case_strict c) as Hs.
+  destruct (spec_case c) as [l| | | |]; cbn [res_ok sres_strict] in Hp, Hs; try discriminate Hp.
+  - exact (items_ok_canon l items x Hs Hp Hin).
+  - exfalso. apply Hfree. reflexivity.
+Qed.
+
+Lemma spec_case_37 c : c_op c = 37 -> spec_case c = SFree.
+Proof.
+  intros H. unfold spec_case. rewrite H. cbv beta iota zeta.
+  destruct (sval c 0) as [[ka a]|]; reflexivity.
+Qed.
+
+(* the result of operation 37 (equality and hash tokens of a pair) holds no vector *)
+Lemma op37_no_vector c items x : c_op c = 37 -> run_case c = Ok items -> ~ In (IV x) items.
+Proof.
+  intros H Hr. unfold run_case in Hr. rewrite H in Hr. cbv beta iota zeta in Hr.
+  destruct (Run.val c 0) as [a| | |]; cbn [bind] in Hr; try discriminate Hr.
+  destruct (Run.val c 1) as [b| | |]; cbn [bind] in Hr; try discriminate Hr.
+  destruct (x_hash (c_prof c) a) as [ha| | |]; cbn [bind] in Hr; try discriminate Hr.
+  destruct (x_hash (c_prof c) b) as [hb| | |]; cbn [bind] in Hr; try discriminate Hr.
+  injection Hr as <-. cbn [In]. intros [E|[E|[E|[]]]]; discriminate E.
+Qed.
+
+(* one step: whatever the operands' history, a vector in the result of an in-scope, constrained
+   case is canonical (this is where the master theorem is used) *)
+Lemma step_canon c items x :
+  In (c_op c) all_ops -> case_okb c = true -> spec_case c <> SFree ->
+  run_case c = Ok items -> In (IV x) items -> canonb x = true.
+Proof.
+  intros Hin Hok Hfree Hrun Hx.
+  pose proof (master c Hin Hok) as Hm. rewrite Hrun in Hm.
+  destruct (N.eq_dec (c_op c) 37) as [E|E].
+  - exfalso. apply Hfree. apply spec_case_37. assumption.
+  - exact (prop_ok_items_good c items x E Hm Hfree Hx).
+Qed.
+
+(* C03 invariant: every reachable value of a standard word width is canonical -- no stored bit at an index
+   >= len, len <= capacity -- whatever history produced it *)
+Theorem reach_canon x : Reach x -> canonb x = true.
+Proof.
+  intros [c items y Hin Hok Hfree _ Hrun Hx]. exact (step_canon c items y Hin Hok Hfree Hrun Hx).
+Qed.
+
+(* operation 12, `new(into_inner(v))`, is the identity on an in-scope operand *)
+Lemma op12_identity c : c_op c = 12 -> case_okb c = true -> exists a, c_vals c = [a] /\ run_case c = Ok [IV a].
+Proof.
+  intros Hop Hok. args_of Hok Hop HF Hn. destruct (view1 c HF Hn) as (a & E & _).
+  exists a. split; [assumption|]. unfold run_case. rewrite Hop. cbv beta iota zeta.
+  rewrite (val0_of c a [] E). reflexivity.
+Qed.
+
+(* reachable values can be used as operands again: they are in the scope of the master theorem
+   as soon as their word width is one of the crate's (which `case_okb` checks) *)
+Lemma reach_operand x : Reach x -> std_widthb (xw x) = true -> goodb x = true.
+Proof. intros H Hw. unfold goodb. rewrite (reach_canon x H), Hw. reflexivity. Qed.
+
+(* ------------------------------------------------------------------ the unrestricted relation *)
+
+(* the relation as first stated, without the premise `spec_case c <> SFree` *)
+Inductive Reach_unrestricted : bvx -> Prop :=
+| ReachU_step c items x :
+    In (c_op c) all_ops -> case_okb c = true ->
+    Forall Reach_unrestricted (c_vals c) ->
+    run_case c = Ok items -> In (IV x) items -> Reach_unrestricted x.
+
+Lemma in_all_ops n : existsb (N.eqb n) all_ops = true -> In n all_ops.
+Proof.
+  intros H. apply existsb_exists in H. destruct H as (y & Hy & E). apply N.eqb_eq in E. subst y. assumption.
+Qed.
+
+(* counterexample: zeros(3) on the heap type, then a release-profile set(5, true): the crate (and
+   the model) store the bit at index 5 >= len = 3 *)
+Lemma reach_unrestricted_not_canon :
+  exists x, Reach_unrestricted x /\ canonb x = false.
+Proof.
+  exists (XD (mkwv [32] 3)). split; [|vm_compute; reflexivity].
+  apply (ReachU_step (mkcase 40 0 Release KD [5; 1] [XD (mkwv [0] 3)] []) [IV (XD (mkwv [32] 3))]).
+  - apply in_all_ops. vm_compute. reflexivity.
+  - vm_compute. reflexivity.
+  - cbn [c_vals]. constructor; [|constructor].
+    apply (ReachU_step (mkcase 1 0 Release KD [3] [] []) [IV (XD (mkwv [0] 3))]).
+    + apply in_all_ops. vm_compute. reflexivity.
+    + vm_compute. reflexivity.
+    + constructor.
+    + vm_compute. reflexivity.
+    + left. reflexivity.
+  - vm_compute. reflexivity.
+  - left. reflexivity.
+Qed.
+
+(* ------------------------------------------------------------------ indistinguishability *)
+
+Definition same_abs (x y : bvx) : Prop := kind_of x = kind_of y /\ abs x = abs y.
+
+Lemma nth_error_same_abs l l' : Forall2 same_abs l l' -> forall i,
+  match nth_error l i, nth_error l' i with
+  | Some x, Some y => same_abs x y
+  | None, None => True
+  | _, _ => False
+  end.
+Proof.
+  induction 1 as [|x y l l' Hxy _ IH]; intros [|i]; cbn [nth_error]; auto.
+  apply IH.
+Qed.
+
+Lemma sval_abs c c' i : Forall2 same_abs (c_vals c) (c_vals c') -> sval c i = sval c' i.
+Proof.
+  intros H. pose proof (nth_error_same_abs _ _ H i) as Hi. unfold sval.
+  destruct (nth_error (c_vals c) i) as [x|], (nth_error (c_vals c') i) as [y|]; try contradiction; [|reflexivity].
+  destruct Hi as [-> ->]. reflexivity.
+Qed.
+
+Lemma srhs_abs c c' : c_args c = c_args c' -> Forall2 same_abs (c_vals c) (c_vals c') -> srhs c = srhs c'.
+Proof.
+  intros Ha H. pose proof (nth_error_same_abs _ _ H 1%nat) as Hi. unfold srhs, arg. rewrite Ha.
+  destruct (nth_error (c_vals c) 1) as [x|], (nth_error (c_vals c') 1) as [y|]; try contradiction; [|reflexivity].
+  destruct Hi as [_ ->]. reflexivity.
+Qed.
+
+(* two reachable values with the same type, length and bits are indistinguishable by every
+   in-scope operation: the results of a case and of the same case with operand i replaced satisfy
+   the same specification (spec_case depends on operands only through kind_of and abs).
+   No restriction is needed: `Forall2` forces the two operand lists to have the same length, so
+   `srhs` chooses the same alternative (second vector / native integer) on both sides. *)
+Lemma spec_case_abs c c' :
+  c_op c = c_op c' -> c_form c = c_form c' -> c_prof c = c_prof c' -> c_kind c = c_kind c' ->
+  c_args c = c_args c' -> c_lists c = c_lists c' ->
+  Forall2 (fun x y => kind_of x = kind_of y /\ abs x = abs y) (c_vals c) (c_vals c') ->
+  spec_case c = spec_case c'.
+Proof.
+  intros Hop _ Hprof Hkind Hargs Hlists Hvals. change (Forall2 same_abs (c_vals c) (c_vals c')) in Hvals.
+  unfold spec_case.
+  rewrite (srhs_abs c c' Hargs Hvals), (sval_abs c c' 0 Hvals), (sval_abs c c' 1 Hvals).
+  unfold arg, lst. rewrite Hop, Hprof, Hkind, Hargs, Hlists. reflexivity.
+Qed.
+
+(* consequently the property relation itself cannot tell the two cases apart *)
+Corollary prop_case_abs c c' r :
+  c_op c = c_op c' -> c_form c = c_form c' -> c_prof c = c_prof c' -> c_kind c = c_kind c' ->
+  c_args c = c_args c' -> c_lists c = c_lists c' ->
+  Forall2 (fun x y => kind_of x = kind_of y /\ abs x = abs y) (c_vals c) (c_vals c') ->
+  prop_case c r = prop_case c' r.
+Proof.
+  intros Hop Hform Hprof Hkind Hargs Hlists Hvals.
+  unfold prop_case, prop_hash_pair.
+  rewrite (spec_case_abs c c' Hop Hform Hprof Hkind Hargs Hlists Hvals).
+  change (Forall2 same_abs (c_vals c) (c_vals c')) in Hvals.
+  rewrite (sval_abs c c' 0 Hvals), (sval_abs c c' 1 Hvals), Hop. reflexivity.
+Qed.
